@@ -33,13 +33,24 @@ type lookupRec struct {
 	Err      int           `json:"err"`
 	Elapsed  int           `json:"elapsed"`
 	Released int           `json:"released"`
+	Extra    []int         `json:"extra"` // describe: data of the additional (unknown) DIB of the returned response, read after the call
 	Slack    int           `json:"slack"`
+}
+
+// withExtraDIB appends a manufacturer DIB (type 0xfe) carrying eight octets of value i and fixes the total length.
+func withExtraDIB(fr []byte, i int) []byte {
+	fr = append(fr, 10, 0xfe)
+	for k := 0; k < 8; k++ {
+		fr = append(fr, byte(i))
+	}
+	fr[4], fr[5] = byte(len(fr)>>8), byte(len(fr))
+	return fr
 }
 
 func descrFrame(i int) []byte {
 	r := knxnet.DescriptionRes(knxnet.DescriptionBlock{DeviceHardware: knxnet.DeviceInformationBlock{Type: 1, Medium: 2, HardwareAddr: make([]byte, 6),
 		FriendlyName: "resp-" + strconv.Itoa(i)}, SupportedServices: knxnet.SupportedServicesDIB{Type: 2}})
-	return knxnet.AllocAndPack(&r)
+	return withExtraDIB(knxnet.AllocAndPack(&r), i)
 }
 
 func searchFrame(i int) []byte {
@@ -48,14 +59,49 @@ func searchFrame(i int) []byte {
 			FriendlyName: "resp-" + strconv.Itoa(i)}, SupportedServices: knxnet.SupportedServicesDIB{Type: 2}}})
 }
 
+// service identifiers other than the awaited one: every KNXnet/IP core, device management, tunnelling, routing,
+// remote-logging and object-server type, the extended search types of later specification versions, and unassigned ones
+var alienIDs = []uint16{0x0201, 0x0202, 0x0203, 0x0204, 0x0205, 0x0206, 0x0207, 0x0208, 0x0209, 0x020a, 0x020b, 0x020c, 0x020d, 0x020f,
+	0x0310, 0x0311, 0x0420, 0x0421, 0x0422, 0x0530, 0x0531, 0x0532, 0x0600, 0x0740, 0x0950, 0x0000, 0x02ff, 0xffff}
+
+// alienFrame is a well-formed answer body (the one the call waits for) under a different service type.
+func alienFrame(want string, i int) []byte {
+	var fr []byte
+	own := uint16(0x0204)
+	if want == "search" {
+		fr = searchFrame(i)
+		own = 0x0202
+	} else {
+		fr = descrFrame(i)
+	}
+	id := alienIDs[i%len(alienIDs)]
+	if id == own {
+		id = 0x020c
+	}
+	fr[2], fr[3] = byte(id>>8), byte(id)
+	return fr
+}
+
 func frameFor(kind string, i int) []byte {
 	switch kind {
 	case "descr":
 		return descrFrame(i)
 	case "search":
 		return searchFrame(i)
+	case "alien-descr":
+		return alienFrame("descr", i)
+	case "alien-search":
+		return alienFrame("search", i)
 	case "other":
-		return knxnet.AllocAndPack(&knxnet.ConnStateRes{Channel: 1})
+		switch i % 4 {
+		case 0:
+			return knxnet.AllocAndPack(&knxnet.ConnStateRes{Channel: 1})
+		case 1:
+			return knxnet.AllocAndPack(&knxnet.ConnRes{Channel: 1})
+		case 2:
+			return knxnet.AllocAndPack(&knxnet.DiscReq{Channel: 1})
+		}
+		return knxnet.AllocAndPack(&knxnet.TunnelRes{Channel: 1})
 	}
 	return []byte{6, 0x10, 0x02, 0x04, 0, 9, 200, 1, 1}
 }
@@ -119,7 +165,13 @@ func runDescribe(o *codec.Out, t *testing.T, timeout time.Duration, script []scr
 		r.Found = append(r.Found, idxOfName(res.DeviceHardware.FriendlyName))
 	}
 	// the socket must have been released: its port can be bound again right away
-	time.Sleep(200 * time.Microsecond)
+	time.Sleep(300 * time.Microsecond)
+	r.Extra = []int{}
+	if res != nil && len(res.UnknownBlocks) > 0 {
+		for _, b := range res.UnknownBlocks[0].Data {
+			r.Extra = append(r.Extra, int(b))
+		}
+	}
 	if clientAddr != nil {
 		if c, e := net.ListenUDP("udp4", &net.UDPAddr{IP: net.IPv4(127, 0, 0, 1), Port: clientAddr.Port}); e == nil {
 			r.Released = 1
@@ -143,7 +195,7 @@ func runDiscover(o *codec.Out, t *testing.T, timeout time.Duration, script []scr
 	defer rc.Close()
 	pc := ipv4.NewPacketConn(rc)
 	pc.SetMulticastLoopback(true)
-	r := lookupRec{K: "lookup", Op: "discover", Timeout: int(timeout / time.Microsecond), Script: script, Found: []int{}, Slack: int(slack / time.Microsecond), Reqs: 1, HpaiOK: 1}
+	r := lookupRec{K: "lookup", Op: "discover", Extra: []int{}, Timeout: int(timeout / time.Microsecond), Script: script, Found: []int{}, Slack: int(slack / time.Microsecond), Reqs: 1, HpaiOK: 1}
 	start := time.Now()
 	stop := make(chan struct{})
 	go func() {
@@ -191,16 +243,16 @@ func TestC20(t *testing.T) {
 		timeouts = append(timeouts, 150*time.Millisecond, 500*time.Millisecond)
 	}
 	kinds := []string{"descr", "other", "malformed", "search"}
-	reps := 6
+	reps := 8
 	if codec.Thorough() {
-		reps = 30
+		reps = 32
 	}
 	okMC := true
 	for _, to := range timeouts {
 		tus := int(to / time.Microsecond)
 		for rep := 0; rep < reps; rep++ {
 			var sc []scriptEntry
-			switch rep % 6 {
+			switch rep % 8 {
 			case 0: // immediately
 				sc = []scriptEntry{{0, "descr"}}
 			case 1: // never
@@ -212,6 +264,12 @@ func TestC20(t *testing.T) {
 			case 4: // a flood of unrelated frames, no answer
 				for i := 0; i < 20; i++ {
 					sc = append(sc, scriptEntry{i * tus / 25, kinds[1+i%2]})
+				}
+			case 5: // two different answers back to back (the second must not disturb the first)
+				sc = []scriptEntry{{0, "descr"}, {0, "descr"}, {0, "descr"}}
+			case 6: // well-formed answer bodies under every other service type, then nothing
+				for i := 0; i < len(alienIDs); i++ {
+					sc = append(sc, scriptEntry{i * tus / 60, "alien-descr"})
 				}
 			default: // seeded
 				n := rng.Intn(8)
@@ -233,9 +291,11 @@ func TestC20(t *testing.T) {
 					ds[i].K = "search"
 				} else if e.K == "search" {
 					ds[i].K = "descr"
+				} else if e.K == "alien-descr" {
+					ds[i].K = "alien-search"
 				}
 			}
-			if rep%6 == 0 {
+			if rep%8 == 0 {
 				for i := 0; i < 20; i++ {
 					ds = append(ds, scriptEntry{i * tus / 40, "search"})
 				}
